@@ -9,8 +9,9 @@
    of received events field by field (tags as a multiset; a stamped date must lie in the wall
    clock window of the run); (2) decides whether the recorded observable trace of the real
    goroutines is a run of the bookkeeping LTS (part B): the unobservable labels are inserted by a
-   fixed scheduler that takes tokens as late and returns them as early as any real run can, so
-   that every real trace is accepted and the result is literally [run (fstep c) finit labels]. *)
+   fixed scheduler that counts an event (eventWg.Add) and takes tokens as late, and returns tokens and
+   decrements as early, as any real run can, and lets each Wait return at the first moment between its
+   call and its return at which the simulated counter is zero, so that every real trace is accepted and the result is literally [run (fstep c) finit labels]. *)
 From stdpp Require Import list.
 From GS Require Export Base.Bytes Base.CorrLib Base.LTS Model.Lexer Model.Series Model.Cloud Model.Tags Model.Events.
 From GS Require Model.Wire.
@@ -169,54 +170,88 @@ Section Sched.
         end
     end.
 
-  Record sim := Sim { s_st : fstate; s_cancel : bool; s_waiting : bool; s_w1 : bool }.
+  (* [s_pend]: DispatchEvent calls seen entering the tail whose eventWg.Add has not been placed yet (it
+     is placed as late as the trace allows: at the event's first SendEvent or at the call's return);
+     [s_w1] / [s_w2]: ch.wg.Wait() / bh.eventWg.Wait() of the WaitForEvents call in progress have returned *)
+  Record sim := Sim { s_st : fstate; s_cancel : bool; s_waiting : bool; s_w1 : bool; s_w2 : bool;
+                      s_pend : list (N * bool) }.
 
-  Definition with_st (s : sim) (st : fstate) : sim := Sim st (s_cancel s) (s_waiting s) (s_w1 s).
+  Definition with_st (s : sim) (st : fstate) : sim :=
+    Sim st (s_cancel s) (s_waiting s) (s_w1 s) (s_w2 s) (s_pend s).
 
-  (* ch.wg.Wait() returns as soon as it can after WaitForEvents was called *)
-  Definition try_w1 (s : sim) : sim :=
-    if s_waiting s && negb (s_w1 s) then
-      match fstep c (s_st s) WaitCloud with
-      | Some st => Sim st (s_cancel s) true true
-      | None => s
+  (* the two Waits return as soon as they can after WaitForEvents was called: the real call returns
+     between its OWaitCall and OWaitRet, at a moment when the real counters - never below the
+     simulated ones - are zero *)
+  Definition try_w (s : sim) : sim :=
+    let s1 :=
+      if s_waiting s && negb (s_w1 s) then
+        match fstep c (s_st s) WaitCloud with
+        | Some st => Sim st (s_cancel s) true true false (s_pend s)
+        | None => s
+        end
+      else s in
+    if s_waiting s1 && s_w1 s1 && negb (s_w2 s1) then
+      match fstep c (s_st s1) WaitBackend with
+      | Some st => Sim st (s_cancel s1) true true true (s_pend s1)
+      | None => s1
       end
-    else s.
+    else s1.
 
   Definition park_if_new (e : N) (st : fstate) : option fstate :=
     if existsb (N.eqb e) (arrived st) then Some st else fstep c st (Arrive e false).
+
+  Fixpoint take_pend (e : N) (l : list (N * bool)) : option (bool * list (N * bool)) :=
+    match l with
+    | [] => None
+    | (e', rel) :: r =>
+        if (e' =? e)%N then Some (rel, r)
+        else match take_pend e r with Some (x, r') => Some (x, (e', rel) :: r') | None => None end
+    end.
+
+  (* place the pending entry of e, if any: the event enters the backend handler (eventWg.Add) *)
+  Definition place (e : N) (s : sim) : option sim :=
+    match take_pend e (s_pend s) with
+    | None => Some s
+    | Some (rel, rest) =>
+        let st := s_st s in
+        (λ st', Sim st' (s_cancel s) (s_waiting s) (s_w1 s) (s_w2 s) rest) <$>
+        (if rel then doo st [Release [e]; RelNext (length (rels st)); RelDone (length (rels st))]
+         else fstep c st (Arrive e true))
+    end.
 
   Definition sched (s : sim) (o : obs) : option sim :=
     let st := s_st s in
     match o with
     | OAccepted es =>
         with_st s <$> foldl (λ acc e, acc ≫= park_if_new e) (Some st) es
-    | OEnter e false => with_st s <$> fstep c st (Arrive e true)
-    | OEnter e true =>
-        st1 ← park_if_new e st;
-        with_st s <$> doo st1 [Release [e]; RelNext (length (rels st1)); RelDone (length (rels st1))]
+    | OEnter e rel =>
+        st1 ← (if rel then park_if_new e st else Some st);
+        Some (Sim st1 (s_cancel s) (s_waiting s) (s_w1 s) (s_w2 s) (s_pend s ++ [(e, rel)]))
     | OEntered e =>
-        st1 ← spawn_to (nb c) e (Nat.min (nb c) (ncalls e)) st;
+        s1 ← place e s;
+        st1 ← spawn_to (nb c) e (Nat.min (nb c) (ncalls e)) (s_st s1);
         match find_disp st1 e with
-        | None => Some (with_st s st1)
-        | Some d => if s_cancel s then with_st s <$> fstep c st1 (Cancel d) else None
+        | None => Some (with_st s1 st1)
+        | Some d => if s_cancel s1 then with_st s1 <$> fstep c st1 (Cancel d) else None
         end
     | OCall e b =>
-        st1 ← spawn_to (nb c) e (S b) st;
+        s1 ← place e s;
+        st1 ← spawn_to (nb c) e (S b) (s_st s1);
         g ← find_go st1 e b PSpawned;
-        with_st s <$> fstep c st1 (SendCall g)
+        with_st s1 <$> fstep c st1 (SendCall g)
     | ORet e b =>
         g ← find_go st e b PCalling;
         with_st s <$> doo st [SendRet g; SemRelease g; WgDone g]
-    | OCancel => Some (Sim st true (s_waiting s) (s_w1 s))
-    | OWaitCall => Some (Sim st (s_cancel s) true false)
+    | OCancel => Some (Sim st true (s_waiting s) (s_w1 s) (s_w2 s) (s_pend s))
+    | OWaitCall => Some (Sim st (s_cancel s) true false false (s_pend s))
     | OWaitRet =>
-        if s_w1 s then (λ st', Sim st' (s_cancel s) false false) <$> fstep c st WaitBackend else None
+        if s_w2 s then Some (Sim st (s_cancel s) false false false (s_pend s)) else None
     end.
 
   Fixpoint replay (s : sim) (tr : list obs) : option sim :=
     match tr with
     | [] => Some s
-    | o :: r => match sched s o with Some s' => replay (try_w1 s') r | None => None end
+    | o :: r => match sched s o with Some s' => replay (try_w s') r | None => None end
     end.
 End Sched.
 
@@ -228,10 +263,13 @@ Definition final_ok (st : fstate) : bool :=
   && match parked st, rels st, disp st, gos st with [], [], [], [] => true | _, _, _, _ => false end.
 
 Definition replay_case (c : c19case) : option sim :=
-  replay (FCfg (k_nb c) (k_cap c)) (count_calls (k_trace c)) (Sim finit false false false) (k_trace c).
+  replay (FCfg (k_nb c) (k_cap c)) (count_calls (k_trace c)) (Sim finit false false false false []) (k_trace c).
 
 Definition trace_ok (c : c19case) : bool :=
-  match replay_case c with Some s => final_ok (s_st s) | None => false end.
+  match replay_case c with
+  | Some s => final_ok (s_st s) && match s_pend s with [] => true | _ => false end
+  | None => false
+  end.
 
 Definition check_case (c : c19case) : bool := fields_ok c && trace_ok c.
 
